@@ -90,7 +90,7 @@ def apply_contract(eng, st, c, args, kw, node, arg_exprs=(), kw_exprs=None, recv
     for exc, spec in c.may_raise.items():
         fs = st.clone()
         fctx = Ctx(eng, fs, dict(argmap), old=OldCtx(eng, pre_heap, pre_env))
-        cond = spec.get("when")
+        cond = spec.get("when") or spec.get("only_when")
         if cond is not None:
             fs.assume(cond(fctx))
         _havoc_frame(eng, fs, c, argmap, exprmap, spec.get("modifies", {}))
